@@ -4,7 +4,7 @@ import numpy as np
 import nets
 
 PID = "C11"
-THEOREMS = ["trace_spec", "stops_def", "trace_total", "trace_in_bounds", "upstream_follows_main"]
+THEOREMS = ["trace_spec", "stops_def", "trace_total", "trace_in_bounds", "upstream_follows_main", "gen__trace_eq", "gen_path_eq", "gen_snap_eq"]
 RULE = ("closed loop-free graphs on n<=4 cells (n<=5 thorough) x every start cell x masks x max_length in "
         "{None,0,0.5,1,1.5,2,3} through core._trace/path/snap and Flwdir.path; rasters to 5x5 through "
         "FlwdirRaster.path/snap with unit 'cell' and unit 'm' on a 3-4-5 cell (all sums exact), both directions, "
